@@ -138,17 +138,16 @@ let handle (w : string list) : string =
     let g = get m in
     let has_query = g "kq" <> "-" || g "cq" <> "-" || g "sq" <> "-" || g "asatt" <> "-" in
     let url = expand (g "url") ^ (if has_query then "?q" else "") in
-    let found = Files.download !st (bytes_of_string serve_url) (bytes_of_string url) in
     let r = { Files.s_meth = meth (g "m");
               s_keys = [key (g "kh"); key (g "kq"); None; key (g "kc")];
               s_creds = [cred (g "cx"); cred (g "ca"); cred (g "cq"); None; cred (g "cc")];
               s_sid = sid (g "sq"); s_handler = handler (g "mh"); s_hdr = hdr (g "mh");
-              s_found = (found <> None) } in
-    let o = Files.serve_gate r in
+              s_found = false (* computed by serve_request from the store slice *) } in
+    let (o, sent) = Files.serve_request !st r (bytes_of_string serve_url) (bytes_of_string url) in
     "SV " ^ status o ^ " " ^
-    (match Files.effect_of o, found with
-     | Files.EServed, Some f -> "served:" ^ index_of_id f.Files.f_id
-     | e, _ -> effect e)
+    (match sent with
+     | Some f -> "served:" ^ index_of_id f.Files.f_id
+     | None -> effect (Files.effect_of o))
   | ["USER"; u] -> st := Files.step !st (Files.OAddUser (n_of_string u)); "USER ok"
   | ["NEWACC"; u; tpls] ->
     (* replyCreateUser: Users.Create, then Files.LinkAttachments("usrX", 0, attachments) *)
